@@ -1985,6 +1985,29 @@ def inline_table_locals(stmts):
     return out
 
 
+def _const_int(v, module, depth=0):
+    """the integer a module-level expression evaluates to when it is arithmetic (+, -, *) over integer literals, other such constants of
+    the module (bound once) and len(<bytes / str literal constant of the module>); None otherwise"""
+    if depth > 4:
+        return None
+    if isinstance(v, ast.Constant) and type(v.value) is int:
+        return v.value
+    if isinstance(v, ast.BinOp) and isinstance(v.op, (ast.Add, ast.Sub, ast.Mult)):
+        a, b = _const_int(v.left, module, depth + 1), _const_int(v.right, module, depth + 1)
+        if a is None or b is None:
+            return None
+        return a + b if isinstance(v.op, ast.Add) else (a - b if isinstance(v.op, ast.Sub) else a * b)
+    stores = sum(1 for n in ast.walk(module.tree) if isinstance(n, ast.Name) and isinstance(n.ctx, (ast.Store, ast.Del)) and isinstance(v, (ast.Name, ast.Call))
+                 and n.id == (v.id if isinstance(v, ast.Name) else (v.args[0].id if v.args and isinstance(v.args[0], ast.Name) else "")))
+    if isinstance(v, ast.Name) and stores == 1 and v.id in module.assigns:
+        return _const_int(module.assigns[v.id], module, depth + 1)
+    if isinstance(v, ast.Call) and isinstance(v.func, ast.Name) and v.func.id == "len" and len(v.args) == 1 and not v.keywords and isinstance(v.args[0], ast.Name) and stores == 1:
+        w = module.assigns.get(v.args[0].id)
+        if isinstance(w, ast.Constant) and isinstance(w.value, (bytes, str)):
+            return len(w.value)
+    return None
+
+
 def _destructure(t, e):
     """{name: entry} for a (nested) tuple target against a (nested) tuple row of a table display, None if the shapes differ"""
     if isinstance(t, ast.Name):
@@ -2573,14 +2596,18 @@ class Canon:
                 if e is None or not norm.is_pure(e, _PURE_EXT):
                     return None
 
+                # (the record's own receiver gets a name of its own: the values written in may mention the caller's `self`)
+                rself = "rec_self__"
+                e = norm._Rename({ps[0]: rself}).visit(e)
+
                 class SelfProj(ast.NodeTransformer):
                     def visit_Attribute(self, node):
-                        if isinstance(node.value, ast.Name) and node.value.id == ps[0] and node.attr in vals and isinstance(node.ctx, ast.Load):
+                        if isinstance(node.value, ast.Name) and node.value.id == rself and node.attr in vals and isinstance(node.ctx, ast.Load):
                             return copy.deepcopy(vals[node.attr])
                         return self.generic_visit(node)
 
                 e = SelfProj().visit(e)
-                if any(isinstance(n, ast.Name) and n.id == ps[0] for n in ast.walk(e)):
+                if any(isinstance(n, ast.Name) and n.id == rself for n in ast.walk(e)):
                     return None
                 return norm._Subst(dict(zip(ps[1:], args))).visit(e)
 
@@ -2701,6 +2728,10 @@ class Canon:
                 consts[name] = v            # .. keyed by constants / enum members
             elif isinstance(v, ast.Call) and u(v.func) in ("struct.Struct", "Struct") and len(v.args) == 1 and isinstance(v.args[0], ast.Constant) and not v.keywords:
                 consts[name] = v            # a compiled struct layout: as good as its format string
+            else:
+                k_ = _const_int(v, module)
+                if k_ is not None:
+                    consts[name] = ast.copy_location(ast.Constant(k_), v)        # integer arithmetic over literals and lengths of literal constants
         # members of a private IntFlag / IntEnum class the tables do not know: the integers they are
         members = {}
         for cname, c in module.classes.items():
@@ -4342,11 +4373,11 @@ class Canon:
         # helper objects that only appeared when a helper was inlined (`self._left()` -> `_Half(self.fwd, self.bck)`): named, taken apart
         if any(isinstance(n, ast.Attribute) and isinstance(n.value, ast.Call) and isinstance(n.value.func, ast.Name) and n.value.func.id.startswith("_")
                and n.value.func.id in module.classes for s_ in b for n in ast.walk(s_)):
-            b1 = self.name_helper_receivers(b, module)
-            b1, look1 = self._sroa(b1, module, look)
+            b = self.name_helper_receivers(b, module)          # (rewrites in place: its result is the body from here on)
+            b, look1 = self._sroa(b, module, look)
             if look1 is not look:
                 inl1 = Inliner(look1)
-                b = inl1.rec(b1, inl1.depth, (fn.name,))
+                b = inl1.rec(b, inl1.depth, (fn.name,))
                 b = [x for x in (_StripAnn().visit(s_) for s_ in b) if not isinstance(x, ast.Pass)] or b
         b2 = inl.tail_generator_delegation(b, (fn.name,))      # .. reached through a plain helper that was just inlined
         if b2 is not b:
